@@ -355,4 +355,4 @@ def _truthy(run, repo, world):
                     isinstance(node.body[0], ast.Return) and unparse(
                         node.body[0].value) == node.test.id:
                 sites += 1
-    run.floor("`if r: return r` dispatch sites", sites, 4)
+    run.floor("`if r: return r` dispatch sites", sites, 1)
